@@ -7,11 +7,11 @@ MANIFEST = dict(
     cat="proof",
     tech="Coq proofs about the (graph, blockers) representation and about a transcription of the editing code + differential "
          "correspondence of the C++ with the extracted transcription and with the extracted abstract complex after every operation",
-    text="Coq theorems, unbounded (25, all closed under the global context): a closed complex is exactly the set of vertex lists "
+    text="Coq theorems, unbounded (27, all closed under the global context): a closed complex is exactly the set of vertex lists "
          "containing no minimal non-face, and a blocker list that represents it and whose members have all proper faces present IS "
          "the set of minimal non-faces of dimension >= 2; minimal non-faces induced by star removal and simplex insertion, image "
          "of a complex under the vertex identification of a contraction (closed; independent of freeing the simplices blocked through "
-         "ab); for the transcription of the C++: contains = gamma(graph, blockers), add_vertex, add_blocker, remove_star(simplex of "
+         "ab); for the transcription of the C++: contains = gamma(graph, blockers), add_vertex, add_edge, add_edge_without_blockers, add_blocker, remove_star(simplex of "
          "dimension >= 2) in every state, remove_star(vertex) / remove_star(edge) in every state without a blocker that has >= 3 "
          "further vertices, each keeping the invariant 'contains = K, stored blockers = minimal non-faces of K'; concrete witnesses "
          "refute remove_star(vertex/edge) inside a larger blocker (recorded finding).  The C++ is run on generated histories "
